@@ -161,6 +161,37 @@ MUTANTS = [
       return entity.__code__
     else:
       return entity''', '''    return entity''', ['malt.pyct.cache.CodeObjectCache._get_key']),
+    ('c04-return-lowering-before-continue', 'malt/impl/api.py', '''    node = continue_statements.transform(node, ctx)
+    node = return_statements.transform(node, ctx)''', '''    node = return_statements.transform(node, ctx)
+    node = continue_statements.transform(node, ctx)''', ['malt.impl.api.PyToPy.transform_ast']),
+    ('c04-lists-ungated', 'malt/impl/api.py', '''    if ctx.user.options.uses(converter.Feature.LISTS):
+      node = lists.transform(node, ctx)
+      node = slices.transform(node, ctx)''', '''    node = lists.transform(node, ctx)
+    node = slices.transform(node, ctx)''', ['malt.impl.api.PyToPy.transform_ast']),
+    ('c04-no-logical-expressions-pass', 'malt/impl/api.py', '    node = logical_expressions.transform(node, ctx)\n', '',
+     ['malt.impl.api.PyToPy.transform_ast']),
+    ('c04-analysis-skips-reaching-defs', 'malt/impl/api.py',
+     '    node = reaching_definitions.resolve(node, ctx, graphs)\n    anno.dup(', '    anno.dup(',
+     ['malt.impl.api.PyToPy.transform_ast']),
+    ('c17-to_code-drops-features', 'malt/impl/api.py', '''          recursive=recursive,
+          experimental_optional_features=experimental_optional_features))
+  return textwrap.dedent(source)''', '''          recursive=recursive,
+          experimental_optional_features=None))
+  return textwrap.dedent(source)''', ['malt.impl.api.to_code']),
+    ('c15-posonly-ignored-again', 'malt/pyct/parser.py', 'for arg in node.args.posonlyargs + node.args.args)',
+     'for arg in node.args.args)', ['malt.pyct.parser._node_matches_argspec']),
+    ('c15-kwonly-not-compared', 'malt/pyct/parser.py', '''  if node_kwonlyargs != tuple(arg_spec.kwonlyargs):
+    return False
+''', '', ['malt.pyct.parser._node_matches_argspec']),
+    ('c15-varkw-compared-with-vararg', 'malt/pyct/parser.py', 'if arg_spec.varkw != _arg_name(node.args.kwarg):',
+     'if arg_spec.varkw != _arg_name(node.args.vararg):', ['malt.pyct.parser._node_matches_argspec']),
+    ('c18-gensym-does-not-advance', 'malt/pyct/common_transformers/anf.py', '    self._idx += 1\n', '    self._idx += 0\n',
+     ['malt.pyct.common_transformers.anf.DummyGensym.new_name']),
+    ('c18-pending-prepended', 'malt/pyct/common_transformers/anf.py', '    self._pending_statements.append(stmt)',
+     '    self._pending_statements.insert(0, stmt)', ['malt.pyct.common_transformers.anf.AnfTransformer._add_pending_statement']),
+    ('c18-consume-does-not-reset', 'malt/pyct/common_transformers/anf.py', '''    ans = self._pending_statements
+    self._pending_statements = []''', '''    ans = list(self._pending_statements)''',
+     ['malt.pyct.common_transformers.anf.AnfTransformer._consume_pending_statements']),
     ('c10-has-ignores-subkey', 'malt/pyct/cache.py', '    return subkey in parent', '    return True',
      ['malt.pyct.cache._TransformedFnCache.has']),
 ]
